@@ -74,9 +74,18 @@ theorem allSome_map_some {α : Type} (xs : List α) : allSome (xs.map some) = so
   | nil => rfl
   | cons a r ih => simp [allSome, ih]
 
-theorem buildReq_known (m u b t : Bytes) (h : Hdrs) (hu : uriOK u = true) :
-    buildReq { method := m, url := u, body := b, tag := t, hdrs := h } = some (mkReq m u [] b t h) := by
-  simp [buildReq, parseURL, hu, mkReq]
+theorem buildReq_known (m u b t : Bytes) (h : Hdrs) (hu : (parseURL u).isSome = true) :
+    buildReq { method := m, url := u, body := b, tag := t, hdrs := h } =
+      some (mkReq m (targetParts u).2 (targetParts u).1 b t h) := by
+  obtain ⟨p, hp⟩ := Option.isSome_iff_exists.mp hu
+  obtain ⟨host, path⟩ := p
+  simp [buildReq, targetParts, hp, mkReq]
+
+theorem parseURL_of_uriOK {u : Bytes} (hu : uriOK u = true) : parseURL u = some ([], u) := by
+  simp [parseURL, hu]
+
+theorem targetParts_of_uriOK {u : Bytes} (hu : uriOK u = true) : targetParts u = ([], u) := by
+  simp [targetParts, parseURL_of_uriOK hu]
 
 theorem expAmmo_buildReq (f : Fmt) (hf : f ≠ .raw) (cfg : Hdrs) : ∀ (items : List Item) (h : Hdrs), targetsKnown items = true →
     ((expAmmo f h items).map (Ammo.withCfg cfg)).map buildReq = (expReqs f cfg h items).map some
